@@ -188,11 +188,21 @@ class MethodSet:
                 posn += ","
             kwn = ", ".join(f"{name!r}: {name}" for name, _, _ in sp.get("kw", []))
             body = sp.get("body") or f"return {m}"
-            lines.append(f"def h{m}({', '.join(params)}):")
+            ind = ""
+            if sp.get("closure"):
+                # defined inside a factory: names assigned there become closure cells of the method
+                lines.append(f"def _mk{m}():")
+                for ln in sp["closure"].split("\n"):
+                    lines.append("    " + ln)
+                ind = "    "
+            lines.append(f"{ind}def h{m}({', '.join(params)}):")
             slf = "self, " if sp.get("selfarg") else "None, "
-            lines.append(f"    LOG.append(({m}, ({posn}), {{{kwn}}}, {slf[:-2]}))")
+            lines.append(f"{ind}    LOG.append(({m}, ({posn}), {{{kwn}}}, {slf[:-2]}))")
             for ln in body.split("\n"):
-                lines.append("    " + ln)
+                lines.append(ind + "    " + ln)
+            if sp.get("closure"):
+                lines.append(f"    return h{m}")
+                lines.append(f"h{m} = _mk{m}()")
             lines.append("")
         self.src = "\n".join(lines) + "\n"
         self.filename = f"<symx-methods-{next(_SRC_COUNT)}>"
